@@ -3,6 +3,7 @@ import GsModel.Diff.Json
 import GsModel.Ops.Regen
 import GsModel.Text.Escape
 import GsModel.Ops.Gather
+import GsModel.Sec.Serve
 /-
   Model driver: one JSON request per line on stdin, one JSON response per line on stdout.
   Imports no Mathlib (compiled as `lean_exe gsdriver`).
@@ -72,6 +73,32 @@ def handleGather (j : Json) : Json :=
   Json.mkObj [("r", Json.str "ok"),
     ("kept", Json.arr (out.map (fun kv => Json.arr #[Json.str kv.1, Json.str kv.2.method, Json.str kv.2.path])).toArray)]
 
+/-- {"op":"sec.serve","global":[[s..]..],"opsec":null|[[s..]..],"cred":{s:{"r":"na|err|nil|ok","code":n,"p":str}}} -/
+def handleSec (j : Json) : Json :=
+  let alts (x : Json) : List Sec.Alt :=
+    match x with
+    | .arr a => a.toList.map (fun al => match al with | .arr ss => ss.toList.map (fun s => s.getStr?.toOption.getD "") | _ => [])
+    | _ => []
+  let global := alts ((j.getObjVal? "global").toOption.getD .null)
+  let opsec : Option (List Sec.Alt) :=
+    match j.getObjVal? "opsec" with
+    | .ok (.arr a) => some (alts (.arr a))
+    | _ => none
+  let credJ := (j.getObjVal? "cred").toOption.getD .null
+  let cred (s : String) : Sec.Res :=
+    match credJ.getObjVal? s with
+    | .ok c =>
+      match Diff.J.str c "r" with
+      | "ok" => .ok (Diff.J.str c "p")
+      | "nil" => .okNil
+      | "err" => .err (Diff.J.nat c "code")
+      | _ => .notApplies
+    | _ => .notApplies
+  match Sec.serve global opsec cred with
+  | .handler (some p) => Json.mkObj [("r", Json.str "ok"), ("out", Json.str "handler"), ("principal", Json.str p)]
+  | .handler none => Json.mkObj [("r", Json.str "ok"), ("out", Json.str "handler"), ("principal", Json.null)]
+  | .reject c => Json.mkObj [("r", Json.str "ok"), ("out", Json.str "reject"), ("status", Json.num c)]
+
 def handle (line : String) : Json :=
   match Json.parse line with
   | .error e => Json.mkObj [("r", Json.str "bad-input"), ("why", Json.str e)]
@@ -82,6 +109,7 @@ def handle (line : String) : Json :=
     | "regen.exec" => handleRegen j
     | "text.escape" => handleEscape j
     | "ops.gather" => handleGather j
+    | "sec.serve" => handleSec j
     | op => Json.mkObj [("r", Json.str "bad-op"), ("op", Json.str op)]
 
 partial def loop (h : IO.FS.Stream) (out : IO.FS.Stream) : IO Unit := do
